@@ -18,7 +18,7 @@ from typing import Any, Dict, List, Optional, Tuple
 
 from ..cfg import cfg_of
 from ..consteval import ConstEval
-from ..flow import Sym, fpaths, attr_effects
+from ..flow import Sym, fpaths, attr_effects, allfacts
 from ..model import FuncInfo, attr_chain, norm, walk_no_nested
 from ..report import Checker
 
@@ -217,7 +217,7 @@ def run(ch: Checker) -> None:
             continue
         n += 1
         sym = Sym(p)
-        f = dict(p.facts())
+        f = allfacts(p)
         gz = f.get("self.header(b'content-encoding') == b'gzip'")
         has = f.get("self.has_header(b'content-encoding')")
         stored = [(i, st) for i, st in p.stmts() if isinstance(st, ast.Assign) and attr_chain(st.targets[0]) == 'self.body']
@@ -319,6 +319,79 @@ def body_or_chunks_check(ch: Checker, rule: str) -> None:
                  'a message that advertises chunked framing is rebuilt unframed: ' + '; '.join(diffs))
 
 
+def _key_var(target: ast.AST, it: ast.AST) -> Optional[str]:
+    """name bound to the header NAME by `for target in it` (it = headers / headers.keys() / headers.items())"""
+    t = norm(it)
+    if 'headers' not in t:
+        return None
+    if t.endswith('.items()'):
+        return target.elts[0].id if isinstance(target, ast.Tuple) and target.elts and isinstance(target.elts[0], ast.Name) else None
+    if t.endswith('.values()'):
+        return None
+    return target.id if isinstance(target, ast.Name) else None
+
+
+def _is_te_compare(e: ast.AST, key: Optional[str]) -> bool:
+    """<key>.lower() == b'transfer-encoding' (either order)"""
+    if key is not None and isinstance(e, ast.Compare) and len(e.ops) == 1 and isinstance(e.ops[0], ast.Eq):
+        sides = [e.left, e.comparators[0]]
+        consts = [x for x in sides if isinstance(x, ast.Constant) and x.value == b'transfer-encoding']
+        lowers = [x for x in sides if isinstance(x, ast.Call) and isinstance(x.func, ast.Attribute) and x.func.attr == 'lower' and not x.args and norm(x.func.value) == key]
+        return len(consts) == 1 and len(lowers) == 1
+    return False
+
+
+def _is_te_scan(e: ast.AST) -> bool:
+    """an expression that is true iff some header NAME equals transfer-encoding case-insensitively:
+    any(k.lower() == b'transfer-encoding' for k in headers...) or b'transfer-encoding' in {k.lower() for k in headers...}"""
+    if isinstance(e, ast.Call) and attr_chain(e.func) == 'any' and len(e.args) == 1 and isinstance(e.args[0], (ast.GeneratorExp, ast.ListComp)):
+        ge = e.args[0]
+        return len(ge.generators) == 1 and not ge.generators[0].ifs and _is_te_compare(ge.elt, _key_var(ge.generators[0].target, ge.generators[0].iter))
+    if isinstance(e, ast.Compare) and len(e.ops) == 1 and isinstance(e.ops[0], ast.In) and isinstance(e.left, ast.Constant) and e.left.value == b'transfer-encoding':
+        c = e.comparators[0]
+        if isinstance(c, (ast.SetComp, ast.ListComp, ast.GeneratorExp)) and len(c.generators) == 1 and not c.generators[0].ifs:
+            key = _key_var(c.generators[0].target, c.generators[0].iter)
+            return key is not None and isinstance(c.elt, ast.Call) and isinstance(c.elt.func, ast.Attribute) and c.elt.func.attr == 'lower' and norm(c.elt.func.value) == key
+    return False
+
+
+def _is_te_scan_text(t: str) -> bool:
+    try:
+        return _is_te_scan(ast.parse(t, mode='eval').body)
+    except SyntaxError:
+        return False
+
+
+def _te_flags(f: FuncInfo) -> set:
+    """local flags set by the loop form of the scan: every store is the constant False, or the constant True directly under
+    `if <x>.lower() == b'transfer-encoding'` inside a loop over the headers"""
+    stores: Dict[str, List[Tuple[ast.AST, bool]]] = {}
+    def visit(body: List[ast.stmt], in_scan_if: bool, in_loop: Optional[str]) -> None:
+        for s_ in body:
+            if isinstance(s_, (ast.Assign, ast.AnnAssign)):
+                tg = s_.targets[0] if isinstance(s_, ast.Assign) else s_.target
+                if isinstance(tg, ast.Name) and s_.value is not None:
+                    stores.setdefault(tg.id, []).append((s_.value, in_scan_if))
+            if isinstance(s_, ast.For):
+                visit(s_.body, False, _key_var(s_.target, s_.iter))
+                visit(s_.orelse, False, None)
+            elif isinstance(s_, ast.If):
+                visit(s_.body, _is_te_compare(s_.test, in_loop), in_loop)
+                visit(s_.orelse, False, in_loop)
+            elif isinstance(s_, (ast.While, ast.With, ast.Try)):
+                for fld in ('body', 'orelse', 'finalbody'):
+                    visit(getattr(s_, fld, []) or [], False, None)
+                for h in getattr(s_, 'handlers', []) or []:
+                    visit(h.body, False, None)
+    visit(f.node.body, False, None)   # type: ignore[attr-defined]
+    out = set()
+    for name, vals in stores.items():
+        trues = [(v, ok) for v, ok in vals if isinstance(v, ast.Constant) and v.value is True]
+        if trues and all(ok for v, ok in trues) and all(isinstance(v, ast.Constant) and v.value in (True, False) for v, ok in vals):
+            out.add(name)
+    return out
+
+
 def content_length_check(ch: Checker, rule: str) -> None:
     prog = ch.prog
     ce = ConstEval(prog)
@@ -328,6 +401,7 @@ def content_length_check(ch: Checker, rule: str) -> None:
         bad = None
         n = 0
         nstores = 0
+        te_flags = _te_flags(f)
         for p in fpaths(g, limit=100000):
             ch.paths += 1
             if p.exit_kind != 'return':
@@ -350,23 +424,13 @@ def content_length_check(ch: Checker, rule: str) -> None:
                     # value = bytes_(len(<body>)) (or b'0' for no body)
                     if vt not in ('bytes_(len(%s))' % body_txt, "b'0'"):
                         bad = ('Content-Length is computed as %s but the body handed to the packet builder is %s' % (vt[:60], body_txt), p.describe(22))
-                    # guard: the transfer-encoding flag false, and that flag set by a case-insensitive scan
-                    facts = p.facts(i)
-                    te = [(a, pol) for a, pol in facts if 'transfer' in a.lower()]
-                    if not any(pol is False and a in ('has_transfer_encoding',) for a, pol in te):
+                    # guard: a case-insensitive scan of the header names for transfer-encoding came out false
+                    fd = allfacts(p, i)
+                    guards = [a for a, pol in fd.items() if pol is False and (_is_te_scan_text(a) or a in te_flags)]
+                    if not guards:
+                        te = [a for a in fd if 'transfer' in a.lower()]
                         bad = ('Content-Length is written without the case-insensitive "no Transfer-Encoding header" test on the path (guards: %s): a header spelled in another case '
-                               'gets a Content-Length added next to it' % ([a for a, pol in te] or 'none'), p.describe(22))
-        # the flag itself
-        flag_ok = False
-        for l in walk_no_nested(f.node):
-            if isinstance(l, ast.For) and 'headers' in norm(l.iter):
-                for iff in walk_no_nested(l):
-                    if isinstance(iff, ast.If):
-                        t = norm(iff.test)
-                        if t.endswith(".lower() == b'transfer-encoding'") and any(isinstance(s_, ast.Assign) and norm(s_.targets[0]) == 'has_transfer_encoding' and norm(s_.value) == 'True' for s_ in iff.body):
-                            flag_ok = True
-        if not flag_ok and bad is None:
-            bad = ('has_transfer_encoding is not set by a scan comparing <name>.lower() with b"transfer-encoding"', [])
+                               'gets a Content-Length added next to it' % (te or 'none'), p.describe(22))
         ch.check(bad is None and n > 0 and nstores > 0, rule, f, 'Content-Length', 'Content-Length = len(body passed on), guarded by the case-insensitive transfer-encoding scan (%d path(s))' % n,
                  bad[0] if bad else 'no Content-Length store found', witness=bad[1] if bad else None)
 
